@@ -79,6 +79,13 @@ def run(report, db, tier):
     borrow(report, 'R10.3v', "the request id echoed by the plugin arm survives the VarInt codec: what read returns, send accepts (C03's rules)",
            lambda rid, c: c.startswith(('read:', 'send:negative')),
            lambda sub: c03.run(sub, db, tier))
+    from . import c06
+    borrow(report, 'R10.3c', "every login packet is the one its id says: no "
+           "two classes of a login table share an id in any supported "
+           "version, so the encryption response, the plugin response and "
+           "login start reach the server as what they are (C06's rules)",
+           lambda rid, c: rid in ('R06.1', 'R06.2') and '/login:' in c,
+           lambda sub: c06.run(sub, db, 'quick'))
     transport_lookup(report, db, cg, M)
 
 
